@@ -60,6 +60,9 @@ type Violation struct {
 	Class string `json:"class"` // stable violation class, used by the shrinker to keep "the same failure"
 	Msg   string `json:"msg"`
 	Key   string `json:"key,omitempty"` // finding key (what fails), for the known-findings file
+	// NotReplayable: found under real (uncontrolled) concurrency; the replay re-runs the same workload but the Go
+	// scheduler decides whether the violation shows again
+	NotReplayable bool `json:"not_exactly_replayable,omitempty"`
 	// Sub narrows the case to the failing part (e.g. index of the grammar within a batch)
 	Sub int `json:"sub,omitempty"`
 }
